@@ -829,6 +829,149 @@ static int countFdsOf(uint32 pid)
   return n;
 }
 
+// fdtable <mask>: who holds which end of the pipes created by open(): for every requested stream the
+// descriptors of the parent (named by the member that stores them) and of the child that refer to that pipe,
+// with the access mode (r/w) from /proc/<pid>/fdinfo
+static bool linkOf(const char* dir, const char* name, char* out, size_t size)
+{
+  char path[96];
+  snprintf(path, sizeof(path), "%s/%s", dir, name);
+  ssize_t n = readlink(path, out, size - 1);
+  if(n < 0)
+    return false;
+  out[n] = 0;
+  return true;
+}
+
+static char modeOf(const char* pidDir, const char* name)
+{
+  char path[96], line[128];
+  snprintf(path, sizeof(path), "%sinfo/%s", pidDir, name); // /proc/<pid>/fdinfo/<n>
+  FILE* f = fopen(path, "r");
+  char m = '?';
+  if(f)
+  {
+    while(fgets(line, sizeof(line), f))
+      if(strncmp(line, "flags:", 6) == 0)
+      {
+        unsigned long fl = strtoul(line + 6, 0, 8);
+        m = (fl & 3) == 0 ? 'r' : (fl & 3) == 1 ? 'w' : 'b';
+      }
+    fclose(f);
+  }
+  return m;
+}
+
+static void holders(const char* dir, const char* target, const Process* roles)
+{
+  // sorted by descriptor number
+  int fds[64];
+  int n = 0;
+  DIR* d = opendir(dir);
+  if(d)
+  {
+    int own = dirfd(d);
+    while(dirent* e = readdir(d))
+    {
+      if(e->d_name[0] == '.')
+        continue;
+      int fd = atoi(e->d_name);
+      if(roles && fd == own)
+        continue;
+      char link[128];
+      if(linkOf(dir, e->d_name, link, sizeof(link)) && strcmp(link, target) == 0 && n < 64)
+      {
+        int k = n++;
+        while(k > 0 && fds[k - 1] > fd)
+        {
+          fds[k] = fds[k - 1];
+          --k;
+        }
+        fds[k] = fd;
+      }
+    }
+    closedir(d);
+  }
+  if(n == 0)
+    fputc('-', stdout);
+  for(int i = 0; i < n; ++i)
+  {
+    char name[16];
+    snprintf(name, sizeof(name), "%d", fds[i]);
+    if(i)
+      fputc(',', stdout);
+    printf("%c@", modeOf(dir, name));
+    if(roles && fds[i] == roles->fdStdOutRead)
+      printf("out");
+    else if(roles && fds[i] == roles->fdStdErrRead)
+      printf("err");
+    else if(roles && fds[i] == roles->fdStdInWrite)
+      printf("in");
+    else if(roles)
+      printf("fd%d", fds[i]);
+    else
+      printf("%d", fds[i]);
+  }
+}
+
+static void opFdTable(const HxLine& l)
+{
+  uint mask = (uint)hxNum(l, 1) & 7;
+  char* argv[] = {(char*)childPath, (char*)"@pause"};
+  Process p;
+  bool diverted = !(mask & 1);
+  Capture cap(false);
+  if(diverted && !divertStdout())
+  {
+    printf("FAULT tmpfile");
+    hxEndLine();
+    return;
+  }
+  bool ok = p.open(String(childPath, childPathLen), 2, argv, mask);
+  char line[1024];
+  line[0] = 0;
+  // the report is printed after stdout is restored: collect it in a memory stream
+  char* mem = 0;
+  size_t memLen = 0;
+  FILE* saved = stdout;
+  FILE* ms = open_memstream(&mem, &memLen);
+  stdout = ms;
+  printf("ft ok=%d", ok ? 1 : 0);
+  if(ok)
+  {
+    char childDir[64];
+    snprintf(childDir, sizeof(childDir), "/proc/%u/fd", (unsigned)p.getProcessId());
+    const char* names[3] = {"out", "err", "in"};
+    int roleFd[3] = {p.fdStdOutRead, p.fdStdErrRead, p.fdStdInWrite};
+    for(int i = 0; i < 3; ++i)
+    {
+      printf(" %s=", names[i]);
+      char target[128], num[16];
+      snprintf(num, sizeof(num), "%d", roleFd[i]);
+      if(roleFd[i] == 0 || !linkOf("/proc/self/fd", num, target, sizeof(target)))
+      {
+        printf("none");
+        continue;
+      }
+      printf("P:");
+      holders("/proc/self/fd", target, &p);
+      printf(";C:");
+      holders(childDir, target, 0);
+    }
+  }
+  fflush(ms);
+  stdout = saved;
+  fclose(ms);
+  bool killed = ok && p.kill();
+  if(diverted)
+    restoreStdout(cap);
+  fputs(mem ? mem : "", stdout);
+  free(mem);
+  printf(" | killed=%d after=%u", killed ? 1 : 0, pipesOf(p) | (p.pid ? 8u : 0u));
+  hxEndLine();
+  (void)line;
+}
+
 static void opKillTest(const HxLine& l)
 {
   uint mask = ((uint)hxNum(l, 1) & 3) | 4;
@@ -895,6 +1038,8 @@ int main(int argc, char** argv)
       opKillTest(l);
     else if(hxIs(l, "fds", 0))
       opFds();
+    else if(hxIs(l, "fdtable", 1))
+      opFdTable(l);
     else if(hxIs(l, "execfail", 2))
       opExecFail(l);
     else if(l.ntok >= 2 && strcmp(l.tok[0], "env") == 0)
